@@ -1,9 +1,229 @@
 package props
 
-import "verif/internal/core"
+import (
+	"encoding/json"
+	"fmt"
+	"path/filepath"
+	"sort"
+	"time"
 
-// C11 — stub, replaced by the real check.
+	"verif/internal/core"
+)
+
+type c11Case struct {
+	ID       string `json:"id"`
+	Seed     int64  `json:"seed"`
+	Inject   bool   `json:"inject"`
+	Version  int    `json:"version"`
+	Sessions int    `json:"sessions"`
+	Sizes    string `json:"sizes"`
+	Kinds    string `json:"kinds"`
+	C2S      int    `json:"c2s"`
+	S2C      int    `json:"s2c"`
+	Batch    string `json:"batch"`
+	Poll     string `json:"poll"`
+}
+
+func (c c11Case) class() string {
+	return fmt.Sprintf("inject=%v|v%d|sessions=%d|sizes=%s|kinds=%s|batch=%s|poll=%s", c.Inject, c.Version, c.Sessions, c.Sizes, c.Kinds, c.Batch, c.Poll)
+}
+
+type c11Result struct {
+	ID            string            `json:"id"`
+	C2S           int               `json:"c2s"`
+	S2C           int               `json:"s2c"`
+	Bytes         int64             `json:"bytes"`
+	Posts         int               `json:"posts"`
+	MaxPost       int               `json:"max_post"`
+	PostsOver10   int               `json:"posts_over10"`
+	SpanningPosts int               `json:"spanning_posts"`
+	Polls         int               `json:"polls"`
+	MaxPollBatch  int               `json:"max_poll_batch"`
+	PollsOver10   int               `json:"polls_over10"`
+	Bursts        int               `json:"bursts"`
+	MaxBurst      int               `json:"max_burst"`
+	PollShape     string            `json:"poll_shape"`
+	SizeClasses   map[string]int    `json:"size_classes"`
+	JSONClasses   map[string]int    `json:"json_classes"`
+	Injected      int               `json:"injected"`
+	KeysAdded     int               `json:"keys_added"`
+	Unchanged     int               `json:"unchanged"`
+	Violations    []string          `json:"violations"`
+	Timeout       bool              `json:"timeout"`
+	Panic         string            `json:"panic"`
+	Ms            int64             `json:"ms"`
+	Detail        map[string]string `json:"detail"`
+}
+
+func c11Cases(r *core.Run) []c11Case {
+	rng := r.Rand("c11")
+	n := r.Pick(150, 4000)
+	sizes := []string{"small", "edges", "mixed", "big"}
+	kinds := []string{"text", "binary", "mixed"}
+	batches := []string{"ones", "small", "over10", "mixed"}
+	polls := []string{"before", "while", "trickle", "mixed"}
+	weighted := func(ws []int) int {
+		t := 0
+		for _, w := range ws {
+			t += w
+		}
+		k := rng.Intn(t)
+		for i, w := range ws {
+			if k < w {
+				return i
+			}
+			k -= w
+		}
+		return 0
+	}
+	var out []c11Case
+	for i := 0; i < n; i++ {
+		c := c11Case{ID: fmt.Sprintf("c11-s%d-%d", r.Seed, i), Seed: rng.Int63()}
+		// the first cases walk every value of every dimension, the rest are drawn
+		if i < 16 {
+			c.Sizes, c.Kinds, c.Batch, c.Poll = sizes[i%4], kinds[i%3], batches[(i/2)%4], polls[(i/4)%4]
+			c.Inject, c.Version, c.Sessions = i%4 == 3, []int{1, 1, 0, -1}[(i/3)%4], 1+(i/5)%2
+		} else {
+			c.Sizes = sizes[weighted([]int{35, 30, 25, 10})]
+			c.Kinds = kinds[rng.Intn(3)]
+			c.Batch = batches[rng.Intn(4)]
+			c.Poll = polls[rng.Intn(4)]
+			c.Inject = rng.Intn(5) < 2
+			c.Version = []int{1, 0, -1}[weighted([]int{80, 10, 10})]
+			c.Sessions = 1 + weighted([]int{75, 25})
+		}
+		if c.Inject && rng.Intn(5) != 0 {
+			c.Kinds = "json"
+		} else if rng.Intn(12) == 0 {
+			c.Kinds = "json" // JSON traffic with injection disabled must pass untouched
+		}
+		maxC, maxS := 150, 250
+		switch c.Sizes {
+		case "edges", "mixed":
+			maxC, maxS = 60, 80
+		case "big":
+			maxC, maxS = 25, 25
+		}
+		c.C2S, c.S2C = rng.Intn(maxC+1), rng.Intn(maxS+1)
+		if rng.Intn(20) == 0 {
+			c.C2S = 0
+		}
+		if rng.Intn(20) == 0 {
+			c.S2C = 0
+		}
+		out = append(out, c)
+	}
+	return out
+}
+
+// C11 — shimmed websockets deliver every message once, in order, unchanged.
 func C11(r *core.Run) {
-	r.Broken("check not implemented yet")
-	r.Finish(1)
+	r.Level = "exploration"
+	r.SetRule("websockets.Proxy driven in-process (race-built worker, agent's GODEBUG defaults) against a real gorilla websocket backend; one case = one seeded message history over 1-2 shim sessions: text (valid UTF-8 incl. NUL, quotes, <>&, U+2028, 4-byte runes) and binary (all byte values, protocol v1) messages of sizes {0,1,125,126,127,65535,65536,65537,1 MiB,random}, client messages partitioned into data posts of 1-40 (some >10 = queue capacity, some spanning two sessions), backend bursts of 1-100 sent before / while / trickling during polls, one data post and one poll outstanding per session; with injection enabled JSON messages of 13 shapes around resource.headers; class = (injection, protocol version, sessions, size profile, kinds, post batching, poll timing)")
+	r.Assume("binary messages are only generated under shim protocol version 1 (version 0 carries text only); JSON numbers in injected messages are float64-exact; injection is judged as safety only (an unchanged message is always acceptable)")
+	bin := r.MustBuild(r.BuildWorker())
+	godebug := shimGodebug(r)
+	cases := c11Cases(r)
+	if r.OnlyCase >= 0 && r.OnlyCase < len(cases) {
+		cases = cases[r.OnlyCase : r.OnlyCase+1]
+	}
+	byID := map[string]c11Case{}
+	var generic []interface{}
+	for _, c := range cases {
+		byID[c.ID] = c
+		generic = append(generic, c)
+	}
+	hits := map[string]int64{}
+	run := func(cs []interface{}, shards, parallel int) ([]c11Result, []shimCrash) {
+		lines, crashes := shimRun(r, bin, "c11", cs, shards, map[string]interface{}{"parallel": parallel}, 12*time.Minute, "GODEBUG="+godebug)
+		var out []c11Result
+		for _, ln := range lines {
+			if shimAddHits(hits, ln) {
+				continue
+			}
+			var res c11Result
+			if json.Unmarshal(ln, &res) == nil && res.ID != "" {
+				out = append(out, res)
+			}
+		}
+		return out, crashes
+	}
+	results, crashes := run(generic, 8, 4)
+	shimJudgeCrashes(r, crashes)
+
+	seen := map[string]bool{}
+	shapes := map[string]bool{}
+	sizeHist, jsonHist := map[string]int{}, map[string]int{}
+	var maxMs int64
+	for _, res := range results {
+		c := byID[res.ID]
+		seen[res.ID] = true
+		r.Case(c.class())
+		r.Add("messages_client_to_server", res.C2S)
+		r.Add("messages_server_to_client", res.S2C)
+		r.Add("payload_bytes_carried", int(res.Bytes))
+		r.Add("data_posts", res.Posts)
+		r.Add("data_posts_over_10_messages", res.PostsOver10)
+		r.Add("data_posts_spanning_two_sessions", res.SpanningPosts)
+		r.Add("polls", res.Polls)
+		r.Add("poll_replies_over_10_messages", res.PollsOver10)
+		r.Add("backend_bursts", res.Bursts)
+		r.Max("max_messages_in_one_post", res.MaxPost)
+		r.Max("max_messages_in_one_poll_reply", res.MaxPollBatch)
+		r.Max("max_backend_burst", res.MaxBurst)
+		r.Add("injection_messages_extended", res.Injected)
+		r.Add("injection_keys_added", res.KeysAdded)
+		r.Add("injection_messages_left_identical", res.Unchanged)
+		shapes[res.PollShape] = true
+		for k, v := range res.SizeClasses {
+			sizeHist[k] += v
+		}
+		for k, v := range res.JSONClasses {
+			jsonHist[k] += v
+		}
+		if res.Ms > maxMs {
+			maxMs = res.Ms
+		}
+		if len(res.Violations) > 0 {
+			confirmed := res
+			if res.Timeout {
+				// a harness wait expired: only counts if it happens again when the case runs alone
+				rr, cr := run([]interface{}{c}, 1, 1)
+				shimJudgeCrashes(r, cr)
+				if len(rr) != 1 || len(rr[0].Violations) == 0 {
+					r.Inconclusive(fmt.Sprintf("case %s missed a progress bound once (%s) but passed when re-run alone", c.ID, res.Violations[0]))
+					continue
+				}
+				confirmed = rr[0]
+			}
+			for _, v := range confirmed.Violations {
+				sig, msg := shimSplit(v)
+				r.Violate(sig, fmt.Sprintf("%s [%s]: %s", c.ID, c.class(), msg), c, map[string]interface{}{"poll_shape": res.PollShape, "posts": res.Posts, "max_post": res.MaxPost})
+			}
+		}
+		if res.C2S > 20 && res.S2C > 20 {
+			r.Sample(map[string]interface{}{"case": c, "carried_c2s": res.C2S, "carried_s2c": res.S2C, "posts": res.Posts, "max_post": res.MaxPost,
+				"poll_reply_sizes": res.PollShape, "bursts": res.Bursts, "max_burst": res.MaxBurst, "injected": res.Injected, "keys_added": res.KeysAdded, "ms": res.Ms})
+		}
+	}
+	for _, c := range cases {
+		if !seen[c.ID] {
+			r.Inconclusive("no result for case " + c.ID + " (worker died?)")
+		}
+	}
+	r.Set("distinct_poll_batch_signatures", len(shapes))
+	r.Set("message_size_classes", sizeHist)
+	if len(jsonHist) > 0 {
+		r.Set("injection_message_shapes", jsonHist)
+	}
+	r.Set("hook_hits", hits)
+	r.Set("max_case_duration_ms", maxMs)
+	r.Set("worker_godebug", godebug)
+	keys := []string{}
+	for k := range sizeHist {
+		keys = append(keys, k)
+	}
+	sort.Strings(keys)
+	r.JudgeRaces(core.ParseRaceLogs(filepath.Join(r.WorkDir, "race-")))
+	r.Finish(r.Pick(140, 3800))
 }
